@@ -6,10 +6,12 @@
 (*      k  call kind (a call with fixed arguments and options = the ArgId, together with f)     *)
 (*      x  "" | "buf" | "reuse": the documented exception class of kind k                       *)
 (*      r  id of the logged result  [c: class ok|err|perr|panic.., l, col: position of a parse  *)
-(*         error, v: abstract value of everything handed to the caller]                         *)
-(*      s  id of v re-inspected after the caller overwrote its input buffer (Scribble)          *)
-(*      rc ids of the values returned by calls 1..j-1 re-inspected after this call (0: nothing  *)
-(*         was held)                                                                            *)
+(*         error, v: abstract value] - compared with the fresh instance                         *)
+(*      h  id of everything handed to the caller, projected when it was handed out             *)
+(*         [v: trees / delivered values / buffers / strings, e: the error value: text, and     *)
+(*         Line/Column/Message of the ParseError found by errors.As]                            *)
+(*      s  id of the same, re-projected after the caller overwrote its input buffer (Scribble) *)
+(*      rc ids of what calls 1..j-1 handed out, re-projected after this call (Stable)          *)
 (* vals.json     family -> table id -> logged value (the Go driver only removes duplicate texts;*)
 (*               all comparisons below are on the VALUES)                                       *)
 (* fresh.json    family -> kind -> id of the result of that call on a FRESH instance (empty     *)
@@ -44,9 +46,11 @@ V(id) == Vals[Fam][id]
 MemoAt(k) == [a \in ({k} \cap DOMAIN memo[Fam]) |-> V(memo[Fam][a])]
 
 CallOK     == CallConforms(MemoAt(Ev.k), Ev.k, V(Ev.r))
-ScribbleOK == ScribbleConforms(V(Ev.r).v, V(Ev.s))
+\* Scribble: what was just handed out (h) is unchanged after the caller overwrote its input buffer (s)
+ScribbleOK == ScribbleConforms(V(Ev.h), V(Ev.s))
 \* returned value i as seen after this call
-RecheckOK(i) == Ev.rc[i] = 0 \/ RecheckConforms(ret[i].x, V(ret[i].r).v, V(Ev.rc[i]))
+\* Stable: result i, re-projected after this call, equals its projection when it was handed out
+RecheckOK(i) == Ev.rc[i] = 0 \/ Stable(ret[i].x, V(ret[i].h), V(Ev.rc[i]))
 Altered == {i \in 1..Len(ret) : ret[i].ok /\ ~RecheckOK(i)}
 
 Rec(kind, p) == [i |-> c, j |-> j, p |-> p, kind |-> kind]
@@ -66,7 +70,7 @@ TCall == /\ c <= N /\ j <= Len(TraceLog[c].ev)
          /\ memo' = IF Ev.k \in DOMAIN memo[Fam] THEN memo
                     ELSE [memo EXCEPT ![Fam] = (Ev.k :> Ev.r) @@ memo[Fam]]      \* first sight of an argument id: entered
          /\ ret' = Append([i \in 1..Len(ret) |-> [ret[i] EXCEPT !.ok = ret[i].ok /\ RecheckOK(i)]],
-                          [x |-> Ev.x, r |-> Ev.r, ok |-> TRUE])
+                          [x |-> Ev.x, r |-> Ev.r, h |-> Ev.h, ok |-> TRUE])
          /\ j' = j + 1 /\ UNCHANGED <<c, vars>>
 
 TEnd == /\ c <= N /\ j > Len(TraceLog[c].ev)
